@@ -113,7 +113,7 @@ fn mutations(objs: &[u8]) -> Vec<(String, Vec<u8>)> {
     v.push(("empty".into(), vec![]));
     // drop / reorder objects inside multi-object headers (re-encode)
     for (n, h) in hs.iter().enumerate() {
-        if h.objects.len() >= 2 {
+        if !h.objects.is_empty() {
             let rebuild = |objects: Vec<&app::Obj>| -> Vec<u8> {
                 let mut out = Vec::new();
                 for (m, hh) in hs.iter().enumerate() {
@@ -139,8 +139,10 @@ fn mutations(objs: &[u8]) -> Vec<(String, Vec<u8>)> {
                 }
                 out
             };
-            v.push((format!("drop-object-in-header{n}"), rebuild(h.objects.iter().skip(1).collect())));
-            v.push((format!("reorder-objects-in-header{n}"), rebuild(h.objects.iter().rev().collect())));
+            if h.objects.len() >= 2 {
+                v.push((format!("drop-object-in-header{n}"), rebuild(h.objects.iter().skip(1).collect())));
+                v.push((format!("reorder-objects-in-header{n}"), rebuild(h.objects.iter().rev().collect())));
+            }
             let mut more: Vec<&app::Obj> = h.objects.iter().collect();
             more.push(&h.objects[0]);
             v.push((format!("add-object-in-header{n}"), rebuild(more)));
@@ -178,7 +180,8 @@ fn build_echo(tier: &str) -> Echo {
         let n = mutations(&req[2..]).len();
         for step in [Step::Direct, Step::SboSelect, Step::SboOperate] {
             for m in 0..=n {
-                if tier == "quick" && k % 3 != 0 && m % 4 != 0 && m > 40 {
+                if tier == "quick" && k % 3 != 0 && m >= 1 && m <= 2 * (req.len() - 2) && (m - 1) % 8 >= 2 {
+                    // per-byte +-1 mutations of the two larger sets: every fourth byte in the quick tier
                     continue;
                 }
                 cases.push((k, step, m));
